@@ -524,8 +524,14 @@ impl Database {
         let mut loader =
             FastLoader::new(&mut *storage, &record_schema, root_page, starting_row_id)?;
 
+        // Rows stored before a failing one remain (see fast_load.rs), so the header below
+        // is written on the error path too.
+        let mut load_result = Ok(());
         for row in rows {
-            loader.insert_unchecked(&row)?;
+            if let Err(e) = loader.insert_unchecked(&row) {
+                load_result = Err(e);
+                break;
+            }
         }
 
         let stats = loader.finish()?;
@@ -533,10 +539,15 @@ impl Database {
         {
             let page = storage.page_mut(0)?;
             let header = TableFileHeader::from_bytes_mut(page)?;
+            header.set_root_page(stats.root_page);
+            if let Some(hint) = stats.rightmost_hint {
+                header.set_rightmost_hint(hint);
+            }
             let new_row_count = header.row_count().saturating_add(stats.row_count);
             header.set_row_count(new_row_count);
         }
 
+        load_result?;
         Ok(stats.row_count)
     }
 
